@@ -31,6 +31,9 @@ SUPERS = {
     "conv32": [[-2, 2, 2], [2, -2, 2], [2, 2, -2]],
     "odd6": [[1, 0, 1], [0, 2, 0], [-1, 0, 2]],
     "skew12": [[2, 1, 0], [0, 2, 1], [1, 0, 3]],
+    # elongated cells: with a vacancy and nearest-neighbour jumps some sites are out of reach of every vacancy jump
+    "225": [[2, 0, 0], [0, 2, 0], [0, 0, 5]],
+    "235": [[2, 0, 0], [0, 3, 0], [0, 0, 5]],
 }
 # name: (cluster cutoffs, jump cutoff, spectator chemistries)
 CRYSTALS = {
@@ -496,7 +499,7 @@ class Run(RunBase):
         if self.prop == "C33" and rng.random() < 0.04:
             return {"op": "sweep"}
         if rng.random() < 0.03:
-            return {"op": "checkpoint", "how": rng.choice(("pickle", "deepcopy"))}
+            return {"op": "checkpoint", "how": rng.choice(("pickle", "deepcopy", "shallow", "shallow"))}
         if self.companion is not None and rng.random() < 0.08:
             return {"op": "companion", "seed": rng.randrange(1 << 20)}
         if (self.released or self.given_to_jit) and rng.random() < 0.05:
@@ -844,6 +847,19 @@ class Run(RunBase):
         if self.prop == "C35":
             return "skip"
         import pickle
+        if op.get("how") == "shallow":
+            # a replica made with copy.copy() (shares every attribute until it is started) is started on another
+            # occupation and dropped; the sampler under test carries on and must not have noticed
+            rep_ = copy.copy(self.mc)
+            rnd = random.Random(index * 7 + 1)
+            occ2 = [rnd.choice((0, 1)) for _ in range(self.n)]
+            if self.vacsite is not None:
+                occ2[self.vacsite] = -1
+            rep_.start(np.array(occ2, dtype=int))
+            if self.w["jumps"]:
+                rep_.transitions()
+            self.faults["shallow-replica-started"] += 1
+            return "replica"
         try:
             dup = pickle.loads(pickle.dumps(self.mc)) if op.get("how") == "pickle" else copy.deepcopy(self.mc)
         except Exception:
